@@ -122,6 +122,14 @@ func (d *FileSystemDirectory) Persist(kind string, id uint64, w WriterTo, closeC
 		_ = os.Remove(path)
 	}
 
+	// discard the content of any earlier file of the same name,
+	// now that we hold the exclusive lock on it
+	err = f.File().Truncate(0)
+	if err != nil {
+		cleanup()
+		return err
+	}
+
 	_, err = w.WriteTo(f.File(), closeCh)
 	if err != nil {
 		cleanup()
